@@ -21,8 +21,20 @@ def stream(seed, prop, index, name):
 
 
 def sh(cmd, cwd=None, timeout=600):
-    p = subprocess.run(cmd, cwd=cwd, env=ENV, stdout=subprocess.PIPE, stderr=subprocess.PIPE, timeout=timeout)
-    return p
+    """Run a build step; on timeout the whole process group is killed (the compile driver
+    spawns the code generator and gcc as children)."""
+    import signal
+    proc = subprocess.Popen(cmd, cwd=cwd, env=ENV, stdout=subprocess.PIPE, stderr=subprocess.PIPE, start_new_session=True)
+    try:
+        out, err = proc.communicate(timeout=timeout)
+    except subprocess.TimeoutExpired:
+        try:
+            os.killpg(proc.pid, signal.SIGKILL)
+        except ProcessLookupError:
+            pass
+        out, err = proc.communicate()
+        return subprocess.CompletedProcess(cmd, -9, out, (err or b"") + b"\n[timeout after %ds]" % timeout)
+    return subprocess.CompletedProcess(cmd, proc.returncode, out, err)
 
 
 def build_executables(drivers, collectors, codegens, sim=True, real=False, sources=None, only=None):
